@@ -22,6 +22,7 @@ RULE = (
     "Non-trivial: circuits differ on some but not all valuations, or are equivalent but structurally "
     "different, or a startpoint is untied, or a strict endpoint subset is compared. Distinct by digest."
 )
+RULE += ' Added after seeded-change rounds 4-5: encoder-like names (g_X ...), parity-heavy circuits, 3..129 compared endpoints with one differing endpoint at every position (core); a ValueError is a refusal only when two generated names (c0_<n>, c1_<n>, startpoints, dif_<e>, sat) really coincide.'
 ASSUMPTIONS = [
     "reference simulator cgv.refsim",
     "empty startpoints/endpoints collections mean 'default' (they are falsy in the code) and are not generated",
